@@ -380,7 +380,7 @@ def math (name : String) (a : JNum) : Option JNum :=
   | "length" => some (match a.repr with
       | .int i => if inI64 (-i) || i ≥ 0 then ⟨.int (if i < 0 then -i else i), none⟩ else ⟨.flt (intToFloat i).abs, none⟩
       | .flt f => ⟨.flt f.abs, none⟩)
-  | "trunc_i64" => some (match a.repr with | .int i => ⟨.int i, none⟩ | .flt f => ofI (floatAsI64 f))
+  | "trunc_i64" => some (match a.repr with | .int i => ofI (floatAsI64 (intToFloat i)) | .flt f => ofI (floatAsI64 f))
   | "trunc" => some (match a.repr with
       | .int i => ⟨.flt (intToFloat i), none⟩
       | .flt f => ⟨.flt (if f < 0 then f.ceil else f.floor), none⟩)
